@@ -15,7 +15,7 @@ def family(pid, tier, seed):
     if pid == "C01":
         n, exh, rnd = (24, 3, 60) if quick else (120, 3, 200)
         for i in range(n):
-            kinds = [[], ["token", "tokens"], ["int8"], ["token", "tokens", "int8"], ["capt", "pstring"], ["capt", "tokens", "textu"], ["pstring", "textu", "int8"]][i % 7]
+            kinds = [[], ["token", "tokens"], ["int8"], ["token", "tokens", "int8"], ["capt", "pstring", "capts"], ["capt", "tokens", "textu"], ["pstring", "textu", "int8", "pcapts"]][i % 7]
             g = GG.make_grammar(rng, "g%d" % i, extra_kinds=kinds, ks=(0, 1, 2, 3, 99999, -1, -3) if i % 3 == 0 else (0, 1, 2, -1), use_user=(i % 4 == 3))
             seen = set()
             GG.exhaustive_inputs(g, (exh if i % 2 == 0 else 2) if quick else (4 if i % 6 == 0 else 3), seen, extra_terms=("A",) if g["ci"] else ())
@@ -266,7 +266,7 @@ def leak_family(rng, quick):
     def look(neg, kid):
         return {"op": "look", "neg": neg, "kid": kid}
 
-    kinds = ["string", "strings", "bool", "int8", "token", "capt", "textu", "pstring"]
+    kinds = ["string", "strings", "bool", "int8", "token", "capt", "textu", "pstring", "capts"]
     nested_opts = ["none", "complete", "partial", "deep"]
     cps = ["alt", "opt", "star", "plus", "neg", "look", "nlook", "altalt"]
     combos = list(itertools.product(cps, nested_opts, kinds))
@@ -277,7 +277,7 @@ def leak_family(rng, quick):
     combos += [(c, n, k) for c in ("lookcap", "nlookcap") for n in ("none", "complete", "partial") for k in ("string", "strings", "bool")]
     combos += [("caploop", "none", k) for k in ("string", "strings", "tokens")] + [("capplus", "none", k) for k in ("string", "strings")]
     # fields of a user type implementing participle.Capture (written through Capture(), which user code makes accumulate)
-    combos += [(c, n, k_) for c in ("alt", "opt", "star", "altalt") for n in ("none", "complete") for k_ in ("capt", "textu", "pstring")]
+    combos += [(c, n, k_) for c in ("alt", "opt", "star", "altalt") for n in ("none", "complete") for k_ in ("capt", "textu", "pstring", "capts", "pcapts")]
     # the SAME field captured on the accepted path and again, first thing, inside the abandoned attempt
     combos += [("samefield_" + m, "none", k) for m in ("star", "opt", "alt") for k in ("string", "strings", "capt")]
     # a modifier applied directly to a multi-token capture: @( A B )*  @( A B )?  @( A B )+
